@@ -69,6 +69,18 @@ PROPS = {
         assumptions=["Haversine (libm), CSV parsing (csv/serde) and rayon's order-preserving indexed collect are not modelled; they are exercised by the binary runs only",
                      "the harness recomputes the expected matrix with the same formula text, sequentially"],
     ),
+    "C05": dict(
+        streams=[ALGO, HIST],
+        translators=["tables"],
+        oracles=[dict(name="monotone", profiles=["debug"])],
+        assumptions=["Ward: monotonicity of sqrt on the raw heights is a hypothesis of the Ward theorem (partial); the other four methods are unconditional"],
+    ),
+    "C20": dict(
+        streams=[("alloc", ["release"])],
+        oracles=[],
+        assumptions=["std's RawVec growth policy and the stable sort's scratch policy are MODELLED (read from rust-src); the counting allocator must reproduce the model's allocation sizes exactly",
+                     "n <= 250000 in the theorems (beyond it the sort scratch is n - n/2 elements)"],
+    ),
     "C13": dict(
         streams=[SHAPE],
         oracles=[dict(name="shape_sweep", profiles=["debug", "release"])],
